@@ -6,6 +6,7 @@ from typing import Any
 
 from .. import oracle as O, patches, refm, rsbridge, rscheck, symx
 from ..rsrt import Panic
+from ..paths import REPO
 from . import common
 
 ID = 'C05'
@@ -131,7 +132,7 @@ def h_short(ctx: Any, ng: int, nc: int, np_: int, twin: bool = False) -> None:
 def _programs() -> list[tuple]:
     out = []
     for base in ('small_theory', 'substitution', 'propositional'):
-        out.append(tuple(list(open(f'/repo/proofs/{base}.ml-{s}', 'rb').read()) for s in ('gamma', 'claim', 'proof')))
+        out.append(tuple(list(open(f'{REPO}/proofs/{base}.ml-{s}', 'rb').read()) for s in ('gamma', 'claim', 'proof')))
     O_ = refm.opcodes()
     # mini programs exercising metavariable constraints, substitutions, memory and all three publishes
     mv = [O_['MetaVar'], 0, 1, 1, 0, 0, 0, 0]  # phi0 with e_fresh [1]
